@@ -248,6 +248,13 @@ func c17Docs(cfg Config, lim c17Limits) ([]corpus.Doc, error) {
 		}
 		docs = append(docs, corpus.Mutate(mr, d, i))
 	}
+	// documents with one line longer than the line scanner can buffer: how such a document is treated must not
+	// depend on the delivery or on the reader type either
+	for _, f := range []string{"srt", "vtt", "ssa"} {
+		for _, L := range []int{65535, 65536, 1 << 17} {
+			docs = append(docs, corpus.LongLine(f, 3, 1, "text", L))
+		}
+	}
 	for _, sz := range lim.largeSizes {
 		for _, f := range []string{"srt", "vtt", "ssa"} {
 			docs = append(docs, corpus.Large(f, root.Derive("large-"+f, sz), sz))
